@@ -144,13 +144,38 @@ class FindIdentifiers(_ast_util.NodeVisitor):
         # argument names in each function header so they arent
         # counted as "undeclared"
 
+        # defaults and decorators are evaluated in the enclosing scope
+        for n in node.args.defaults:
+            self.visit(n)
+        for n in node.args.kw_defaults:
+            if n is not None:
+                self.visit(n)
+        if not islambda:
+            for n in node.decorator_list:
+                self.visit(n)
+            if node.returns is not None:
+                self.visit(node.returns)
+
         inf = self.in_function
         self.in_function = True
 
-        local_ident_stack = self.local_ident_stack
-        self.local_ident_stack = local_ident_stack.union(
-            [arg_id(arg) for arg in self._expand_tuples(node.args.args)]
+        args = node.args
+        allargs = list(
+            self._expand_tuples(
+                getattr(args, "posonlyargs", []) + args.args + args.kwonlyargs
+            )
         )
+        if args.vararg:
+            allargs.append(args.vararg)
+        if args.kwarg:
+            allargs.append(args.kwarg)
+        argnames = [arg_id(arg) for arg in allargs]
+        for arg in allargs:
+            if getattr(arg, "annotation", None) is not None:
+                self.visit(arg.annotation)
+
+        local_ident_stack = self.local_ident_stack
+        self.local_ident_stack = local_ident_stack.union(argnames)
         if islambda:
             self.visit(node.body)
         else:
